@@ -37,7 +37,7 @@ CHECKS = {
     'C18': {
         'text': 'geodepy.gnss (real source, pandas stubbed, in-memory files): set_creation_time runs with the clock a symbolic instant and its '
                 'formatted fields as decimal-text objects whose lengths are integer terms - the solver decides the result is always YY:DDD:SSSSS; '
-                'remove_stns_sinex runs on generated SINEX 2.02 files (1..3/4 stations, solution numbers 1..3, with/without velocities, L/U) with the '
+                'remove_stns_sinex runs on generated SINEX 2.02 files (1..3 stations quick, 1..6 thorough, solution numbers 1..3, with/without velocities, L/U) with the '
                 'removal set a symbolic membership predicate so every subset is a path; outputs are parsed independently and compared with the '
                 'remaining estimates (renumbered), sub-matrix, header count, block structure; remove_velocity_sinex, remove_matrixzeros_sinex and '
                 'the estimate/matrix/site readers on the same shapes (sites include -0 degree fields).',
